@@ -12,6 +12,16 @@ def ge_tests(B, left_pred, right_pred):
     out = []
     for sb in B.switch_blocks():
         e, tr, fa = B.truth_edges(sb)
+        if e[0] == "op" and e[1]["k"] in ("copy", "move"):
+            # a bool handed back by a helper analysed in place: `true` can only come from the one comparison, the other ways out
+            # of the helper return the literal false (listing failed -> "not full")
+            org = B.origins(e[1])
+            bins = [o for o in org if o[0] == "bin"]
+            rest = [o for o in org if o[0] != "bin"]
+            if len(bins) == 1 and all(o[0] == "const" and not o[2] for o in rest):
+                for s_ in B.blocks[bins[0][2]]["stmts"]:
+                    if s_["k"] == "assign" and s_["rv"]["k"] == "bin" and s_["rv"]["op"] == bins[0][1]:
+                        e = ("bin", s_["rv"]["op"], s_["rv"]["a"], s_["rv"]["b"], bins[0][2])
         if e[0] != "bin":
             continue
         op, a, b = e[1], B.origins(e[2]), B.origins(e[3])
@@ -80,14 +90,22 @@ def run(F, R, tier):
     if af:
         B = mir.Body(af, F)
         rm = [c[0] for c in B.calls_named("std::fs::remove_file")]
+        # `files.into_iter().take(n).try_for_each(fs::remove_file)`: the deletion is the consumer that is handed remove_file
+        via_item = [c[0] for c in B.calls_named("Iterator::try_for_each", "Iterator::for_each")
+                    if len(c[3]["args"]) == 2 and any(o[0] == "fnitem" and q.ends(o[1], "std::fs::remove_file") for o in B.origins(c[3]["args"][1]))]
         tests = ge_tests(B, is_len, lambda o: bool(o) and all(x[0] == "param" and x[1] == "self" and x[2][:1] == ("max_log_file_count",) for x in o))
         fl = for_loops(B)
-        ok = len(rm) == 1 and len(tests) == 1 and len(fl) == 1 and B.path([0], rm, cut_edges=[tests[0][1]]) is None
+        sites = rm + via_item
+        ok = len(sites) == 1 and len(tests) == 1 and (len(fl) == 1 or bool(via_item)) and B.path([0], sites, cut_edges=[tests[0][1]]) is None
         # the loop iterates the listing returned by get_log_files (sorted) from its start
         src_ok = False
-        if rm:
-            org = B.origins(B.blocks[rm[0]]["term"]["args"][0])
+        if sites:
+            org = B.origins(B.blocks[sites[0]]["term"]["args"][0])
             src_ok = org and all(o[0] == "call" and q.ends(o[1], "RollingLogger::get_log_files") for o in org)
+            # between the listing and the deletion only front-preserving steps (the oldest files are at the front)
+            front = {"into_iter", "iter", "take", "by_ref", "deref", "as_slice"}
+            steps = {q.base_name(v).rsplit("::", 1)[-1] for v in B.via(B.blocks[sites[0]]["term"]["args"][0])}
+            src_ok = src_ok and not (steps - front - {"get_log_files", "branch", "from_residual", "unwrap", "expect", "next", "as_ref", "clone", "to_path_buf", "as_path", "borrow"})
         R.check(ok and src_ok, "C19.R1", "C19.R1:%s:delete-oldest-under-cap" % af["id"], "%s:%s" % (af["file"], af["line"]),
                 "archive_file deletes entries of get_log_files() (iterated from the front) only under file_count >= max_log_file_count")
     gl = R.anchor(RL + "get_log_files", "C19.R1")
